@@ -53,8 +53,13 @@ pub fn bset() -> Vec<V> {
         V::Map(vec![(V::UInt(1), V::s("x"))]),
         V::Map(vec![(V::UInt(2), V::s("y")), (V::UInt(1), V::s("x"))]),
         V::Map(vec![(V::Bool(true), V::List(vec![V::UInt(1)]))]),
+        // a number under both integer key types (what such a map equals is not asserted, that equality is symmetric is)
+        V::Map(vec![(V::Int(1), V::s("x")), (V::UInt(1), V::s("x"))]),
+        V::Map(vec![(V::Int(1), V::s("x")), (V::Int(2), V::s("z"))]),
     ]);
     v.extend([V::dur_ns(0), V::dur_ns(1), V::dur_ns(-1), V::dur_ns(1_000_000_000), V::dur_ns(999_999_999)]);
+    // host-built durations beyond 64-bit nanoseconds (300 and 400 years, and their negatives) still order by length
+    v.extend([V::dur_ns(9_467_085_600_000_000_000), V::dur_ns(12_622_780_800_000_000_000), V::dur_ns(-9_467_085_600_000_000_000), V::dur_ns(i64::MAX as i128), V::dur_ns(i64::MAX as i128 + 1)]);
     v.extend([V::Ts(1685232000, 0, 0), V::Ts(1685232000, 1, 0), V::Ts(1685232000, 0, 3600), V::Ts(1685231999, 999_999_999, -3600), V::Ts(-62135596800, 0, 0)]);
     v
 }
